@@ -24,12 +24,14 @@
      VALUE (`ValEq`: the same string / a decimal that compares equal) to the model's, and an error of the model is
      the error of every run. (`sum`/`avg`: not done; see the note at the end.)
 -/
+import Jmes.Properties.C15
 import Jmes.Properties.C15B
 import Jmes.Proofs.C15CLemmas
 import Jmes.Proofs.C15CErrMain
 import Jmes.Proofs.C15CTotal
 import Jmes.Proofs.C15CMemberLemmas
 import Jmes.Proofs.C15CMaxLemmas
+import Jmes.Proofs.C15CRunGood
 set_option linter.unusedVariables false
 namespace Jmes.C15C
 open Jmes Invar Jmes.C15B Jmes.Grammar
@@ -202,6 +204,62 @@ theorem searchO_noPanic (π : Oracle) (expr : Bytes) (d : Val) : NoPanic (search
   · exact NoPanic.unmodelled _
   · exact NoPanic.err _
   · exact evaluateO_noPanic π _ d
+
+/-- **What a run returns.** On a document without map-ordered arrays, for an expression whose literals contain none
+    and which does not call the unstable `sort` (`noSort`; every other construct — all object enumerations included —
+    is allowed), EVERY run ends in one of three ways: a value that contains no map-ordered array, exactly one error
+    category, or `.unmodelled` (the model's declared gaps). It is never `.nondet` and never a panic: a run never
+    consults an iteration order it has not been given. So wherever the model answers `.nondet` for such an expression
+    (index / slice / `to_string` / `==` / `join` / `zip` / `max_by` ties … on an enumerated array), each run still
+    returns a definite value or a single fault. -/
+theorem run_definite {n : INode} {d : Val} (hd : d.NoEnum = true) (hl : n.NoEnumLits = true)
+    (hs : n.all noSort = true) (π : Oracle) :
+    (∃ r, evaluateO π n d = .ok r ∧ r.NoEnum = true) ∨ (∃ c, evaluateO π n d = .err [c]) ∨
+    (∃ w, evaluateO π n d = .unmodelled w) := by
+  have hn : n.all nodeOkR = true := by
+    have : nodeOkR = fun m => INode.litOk (Val.Good true) m && noSort m := rfl
+    rw [this, INode.all_and]
+    simp only [INode.NoEnumLits, INode.LitsAll] at hl
+    rw [show n.all (INode.litOk (Val.Good true)) = true from hl, hs]
+    rfl
+  have hg : GoodR true (evaluateO π n d) := ievalO_good hd n π d [] hn hd rfl
+  have hp := evaluateO_noPanic π n d
+  cases hr : evaluateO π n d with
+  | ok r => rw [hr] at hg; exact .inl ⟨r, rfl, hg⟩
+  | err cs =>
+    rw [hr] at hg
+    have hlen : cs.length = 1 := hg rfl
+    match cs, hlen with
+    | [c], _ => exact .inr (.inl ⟨c, rfl⟩)
+  | nondet => rw [hr] at hg; exact Bool.noConfusion (hg : true = false)
+  | panic w => exact absurd hr (hp w)
+  | unmodelled w => exact .inr (.inr ⟨w, rfl⟩)
+
+/-- the same for `Search`: for an expression whose compiled form does not call `sort` (the condition on literals is
+    a parser invariant, `compile_litsNoEnum`) -/
+theorem searchO_definite {expr : Bytes} {d : Val} (hd : d.NoEnum = true)
+    (hn : ∀ n, compile expr = .ok n → n.all noSort = true) (π : Oracle) :
+    (∃ r, searchO π expr d = .ok r ∧ r.NoEnum = true) ∨ (∃ c, searchO π expr d = .err [c]) ∨
+    (∃ w, searchO π expr d = .unmodelled w) := by
+  unfold searchO
+  cases hp : Parser.parse expr with
+  | ok n => exact run_definite hd (compile_litsNoEnum hp) (hn n hp) π
+  | error e => cases e <;> first | exact .inr (.inr ⟨_, rfl⟩) | exact .inr (.inl ⟨_, rfl⟩)
+
+/-- `values(@)[0]`, `to_string(values(@))`, `join(',', keys(@))`: the model declines, every run is definite -/
+example (π : Oracle) (d : Val) (hd : d.NoEnum = true) :
+    (∃ r, evaluateO π (.call .toString [.call .values [.current]]) d = .ok r ∧ r.NoEnum = true) ∨
+    (∃ c, evaluateO π (.call .toString [.call .values [.current]]) d = .err [c]) ∨
+    (∃ w, evaluateO π (.call .toString [.call .values [.current]]) d = .unmodelled w) :=
+  run_definite hd (by decide) (by decide) π
+example : evaluate (.call .toString [.call .values [.current]]) ab = .nondet := rfl
+example : evaluateO reverseOracle (.call .toString [.call .values [.current]]) ab = .ok (.str [0x5B, 0x32, 0x2C, 0x31, 0x5D]) := by
+  rfl
+/-- the condition on `sort` is needed: `sort(@)` on `[1, 1.0]` is `.nondet` in every run (an unstable sort with a tie
+    between different values; `C15.sort_nondet`) -/
+example (π : Oracle) : evaluateO π (.call .sort [.current]) (.arr .plain [Jmes.C15.one, Jmes.C15.onePt]) = .nondet := by
+  show sortArray (.arr .plain [Jmes.C15.one, Jmes.C15.onePt]) = .nondet
+  exact Jmes.C15.sortArray_tie
 
 /-- **Membership for an index into an enumerated array.** If the model evaluates `c` to the array `xs` (possibly
     map-ordered, in which case the model answers `.nondet` for `c[i]` as soon as `xs` has two elements and `i` is in
